@@ -2,7 +2,7 @@ SPECIFICATION MCSpec
 CONSTANTS
   C = 2
   MaxParts = 2
-  Amts = {1, 3, 4, 5}
+  Amts = {1, 3, 4}
   Tots = {4}
   Secs = {"ok"}
   Cls = {"far", "far2", "b0", "b1", "b2", "m-1", "m0"}
@@ -13,9 +13,9 @@ CONSTANTS
   MaxTicks = 1
   MaxBlocks = 2
   MaxDev = 2
-  MaxOps = 6
-  StaleClaim = FALSE
-  EmitMod = 4
+  MaxOps = 5
+  StaleClaim = TRUE
+  EmitMod = 1
 CONSTRAINT Bound
 VIEW View
 INVARIANT AllOrNothing
